@@ -569,6 +569,9 @@ def _robust_gp_fit_(
                 idx_drop_out = np.logical_or(
                     idx_drop_out, (Y > np.percentile(Y, 95)).flatten()
                 )
+                # Never shrink the training set below two points
+                if np.sum(~idx_drop_out) < 2:
+                    idx_drop_out[:] = False
                 X = X[~idx_drop_out]
                 Y = Y[~idx_drop_out]
                 if s2 is not None and not np.isscalar(s2):
